@@ -46,6 +46,7 @@ reg("acc_b256_pos", "dec", ["C04"], cap=300,
     bounds="Base256 field of 1..=2 symbolic bytes, explicit length or length 0 (to end of symbol), at a symbolic absolute position 0..=1555", encodes=[DEC + "decode_base256", DEC + "derandomize_255_state"])
 reg("acc_b256_len2", "dec", ["C04"], cap=300,
     bounds="two-codeword Base256 length 250..=1555 (symbolic) at a symbolic position 0..=1300", encodes=[DEC + "decode_base256"])
+reg("acc_b256_len1", "dec", ["C04", "C01"], cap=600, bounds="one-codeword Base256 length 1..=249 (symbolic, incl. the boundary 249) at a symbolic position 0..=1300, two data codewords follow", encodes=[DEC + "decode_base256"])
 reg("acc_pad_pos", "dec", ["C04", "C05"], tier=T, cap=1200,
     bounds="PAD + 0..=3 pads at a symbolic position 0..=1554, optionally one pad corrupted by a symbolic delta", encodes=[DEC + "decode_ascii", DEC + "derandomize_253_state"])
 reg("acc_ascii_eci", "dec", ["C04"], tier=T, cap=1200,
@@ -68,12 +69,11 @@ reg("np_eci_chunk", "eci", ["C05"], profiles=["dev", "rel"], cap=900, bounds="an
 reg("str_latin1_char", "data", ["C14"], cap=900, bounds="one arbitrary Unicode scalar value (all 1,112,064)", encodes=["data::utf8_to_latin1"])
 reg("str_latin1_byte", "data", ["C14"], cap=300, bounds="one byte, all 256 values", encodes=["data::latin1_to_utf8", "data::latin1_to_utf8_mut"])
 reg("str_latin1_two", "data", ["C14"], cap=1800, tier=T, bounds="two printable Latin-1 bytes, round trip through both helpers", encodes=["data::latin1_to_utf8", "data::utf8_to_latin1"])
-reg("str_dispatch_lo", "lib", ["C14"], cap=900, stubbing=True,
-    bounds="every one-character string with the character in U+0000..=U+00FF; DataMatrixBuilder::encode_eci replaced by a recording stub", encodes=["DataMatrixBuilder::encode_str", "data::utf8_to_latin1"])
-reg("str_dispatch_1", "lib", ["C14"], cap=2400, tier=T, stubbing=True,
-    bounds="every one-character string (any Unicode scalar value); DataMatrixBuilder::encode_eci replaced by a recording stub", encodes=["DataMatrixBuilder::encode_str", "data::utf8_to_latin1"])
-reg("str_dispatch", "lib", ["C14"], cap=3600, mem_gb=20, tier=T, role="attempt", stubbing=True,
-    bounds="every string of 1..=2 arbitrary Unicode scalar values; same stub", encodes=["DataMatrixBuilder::encode_str", "data::utf8_to_latin1"])
+DSP = ["DataMatrixBuilder::encode_str", "data::utf8_to_latin1"]
+reg("str_dispatch_ascii", "lib", ["C14"], cap=900, stubbing=True, bounds="every one-character string U+0000..=U+007F; DataMatrixBuilder::encode_eci replaced by a recording stub", encodes=DSP)
+reg("str_dispatch_2byte", "lib", ["C14"], cap=900, stubbing=True, bounds="every one-character string U+0080..=U+07FF; same stub", encodes=DSP)
+reg("str_dispatch_2ascii", "lib", ["C14"], cap=1200, stubbing=True, bounds="every two-character string over U+0000..=U+007F; same stub", encodes=DSP)
+reg("str_dispatch_3byte", "lib", ["C14"], cap=1800, tier=T, stubbing=True, bounds="every one-character string U+0800..=U+FFFF (no surrogates); same stub", encodes=DSP)
 
 # --------------------------------------------------------------------------- encoders (C02, C11, C01), prelude (C16), ECI writer (C15)
 _enc_fn = {"ascii": ["encodation::ascii::encode"], "c40": ["encodation::c40::encode", "c40::encode_generic", "c40::handle_end", "c40::write_three_values"],
@@ -87,6 +87,10 @@ for n, tier, cap in (("ascii_2", Q, 600), ("ascii_3", Q, 900), ("c40_1", Q, 900)
         role="attempt" if n in ("c40_3", "text_3") else "lemma",
         bounds="real %s encoder over the array-backed context HEnc: %s arbitrary characters (%s), 1..=8 codewords already present, symbol list = any 1..3 ascending capacities from the real catalogue (<= 43), planned switch to ASCII at any character or none; stream finished as the dispatch loop does (rest in ASCII, UNLATCH, PAD, 253-state pads) and decoded by the independent ISO/IEC 16022 decoder: output == input, no assertion/overflow/index failure" % (m, l, "EDIFACT-encodable" if m == "edifact" else "X12-native in the full triples" if m == "x12" else "all 256 values"),
         encodes=_enc_fn[m] + ["encodation::ascii::encode", "encodation::ascii::encoding_size"])
+for n in ("249", "250", "251", "1555"):
+    reg("conf_b256_" + n, "enc", ["C02", "C01", "C11"], cap=1800, mem_gb=16, tier=T if n == "1555" else Q, role="attempt" if n == "1555" else "lemma",
+        bounds="Base256 run of exactly %s bytes (one symbolic byte repeated) to the end of the data, explicit length: length field per ISO/IEC 16022 (1 codeword up to 249, 2 from 250), content de-randomises to the input, no panic" % n,
+        encodes=["encodation::base256::encode", "base256::write_length", "base256::randomize_255_state"])
 reg("eci_rt", "enc", ["C15", "C02", "C11"], cap=600, bounds="every ECI number 0..=999999: form per ISO/IEC 16022 and read back by read_eci",
     encodes=["encodation::GenericDataEncoder::write_eci", "decodation::read_eci"])
 MAC = ["encodation::GenericDataEncoder::with_size", "encodation::GenericDataEncoder::use_macro_if_possible", "GenericDataEncoder::eat", "GenericDataEncoder::backup", "GenericDataEncoder::rest"]
@@ -116,8 +120,10 @@ reg("cat_ord", "sym", ["C12"], cap=600, bounds="three symbolic indices over all 
 reg("cat_all_once", "sym", ["C12"], cap=300, bounds="closed term: SYMBOL_SIZES x symbolic variant index: each variant once, strictly ascending", encodes=["symbol_size::SYMBOL_SIZES"])
 reg("cat_caps_table", "sym", ["C12", "C02"], cap=300, role="oracle-validation", bounds="symbolic index over all 48 sizes: capacities <= 43 are in the harness table", encodes=SYM[:1])
 FILT = ["SymbolList::enforce_width_in", "SymbolList::enforce_height_in", "SymbolList::with_whitelist", "SymbolList::contains"]
-reg("cat_filter_w", "sym", ["C12"], cap=1200, bounds="closed terms: one-symbol list [Rect8x18], enforce_width_in for all 7x7 combinations of bound kinds (unbounded/included/excluded) x values {17,18,19} at both ends", encodes=FILT)
-reg("cat_filter_h", "sym", ["C12"], cap=1200, bounds="closed terms: one-symbol list [Rect12x26], enforce_height_in for all 7x7 combinations of bound kinds x values {11,12,13}", encodes=FILT)
+for n, lo in (("w_u", "unbounded"), ("w_i1", "included 17"), ("w_i2", "included 18"), ("w_i3", "included 19"), ("w_e1", "excluded 17"), ("w_e2", "excluded 18"), ("w_e3", "excluded 19")):
+    reg("cat_filter_" + n, "sym", ["C12"], cap=900, bounds="closed terms: one-symbol list [Rect8x18], enforce_width_in, lower bound %s x all 7 upper bounds (unbounded / included / excluded x {17,18,19})" % lo, encodes=FILT)
+for n, lo in (("h_u", "unbounded"), ("h_i", "included 12"), ("h_e", "excluded 12")):
+    reg("cat_filter_" + n, "sym", ["C12"], cap=900, bounds="closed terms: one-symbol list [Rect12x26], enforce_height_in, lower bound %s x all 7 upper bounds around 12" % lo, encodes=FILT)
 reg("cat_filter_axes", "sym", ["C12"], cap=600, bounds="closed terms: width vs height axes on Rect8x18", encodes=FILT)
 reg("cat_filter_sq", "sym", ["C12"], cap=600, bounds="enforce_square on a square and a rectangular one-symbol list", encodes=["SymbolList::enforce_square"])
 reg("cat_filter_re", "sym", ["C12"], cap=600, bounds="enforce_rectangular on a square and a rectangular one-symbol list", encodes=["SymbolList::enforce_rectangular"])
@@ -138,6 +144,10 @@ for n in ("5_11", "12_18", "20", "22", "24", "27", "28", "32", "34", "36", "38",
     reg("rs_step_" + n, "ec", ["C06"], cap=1200, mem_gb=16,
         bounds="degree(s) %s: one LFSR step from an ARBITRARY register state (k symbolic bytes) with an arbitrary data byte == (old*x + a*x^k) mod g coefficient-wise in shift-xor arithmetic (one inductive step => any data length)" % n.replace("_", "..")
         , encodes=["errorcode::ecc_block", "errorcode::generator"])
+for n in ("sq52", "sq64", "sq72", "sq80", "sq88", "sq96", "sq104", "sq120", "sq132", "sq144", "sq10", "r16x48"):
+    reg("rs_glue_" + n, "ec", ["C06", "C01"], cap=1800, mem_gb=16, stubbing=True, tier=Q if n in ("sq52", "sq144", "sq10", "r16x48", "sq104") else T,
+        bounds="%s: EVERY data codeword symbolic; ecc_block replaced by a recording stub (count, first, last, rotating xor): block q receives exactly the codewords q, q+B, q+2B, ... and its result is written to positions q, q+B, ..." % n,
+        encodes=["errorcode::encode_error"])
 reg("rs_il_sq10", "ec", ["C06", "C01"], cap=600, bounds="10x10: all data zero except the last codeword (symbolic): error codewords == a*x^k mod g at the interleaved positions", encodes=["errorcode::encode_error", "errorcode::ecc_block"])
 reg("rs_il_r8x32", "ec", ["C06"], cap=900, tier=T, bounds="8x32: same", encodes=["errorcode::encode_error"])
 for n in ("sq52", "sq64", "sq144"):
@@ -175,6 +185,8 @@ for n in ("k2_z0_b0", "k2_z1_b1", "k3_z0_b0", "k3_z0_b1", "k3_z1_b0", "k3_z2_b1"
 for n in ("ok_contract_k2", "ok_contract_k3"):
     reg(n, "synd", ["C09", "C05"], profiles=["rel"], tier=T, role="attempt", cap=3600, mem_gb=20,
         bounds=TOY + ": every byte symbolic, locator search replaced by its contract", encodes=GEN[:4])
+reg("dec_glue", "synd", ["C03", "C09", "C05"], profiles=["rel"], cap=1800, mem_gb=16, stubbing=True,
+    bounds="symbolic index over all 48 sizes: decode() calls decode_gen once per block with data[b..], error[b..], stride = blocks, err_len = k (decode_gen replaced by a recording stub)", encodes=["syndrome_based::decode"])
 reg("gen_identity", "synd", ["C01", "C03"], profiles=["rel"], tier=T, cap=2400, bounds=TOY + " k=3: arbitrary codeword of block 0: Ok, nothing written, locator search not called", encodes=GEN[:2])
 
 # --------------------------------------------------------------------------- placement (C07), rendering / parsing (C08)
